@@ -62,8 +62,24 @@ fn read_buffer(
     compression_codec: Option<CompressionCodec>,
     decompression_context: &mut DecompressionContext,
 ) -> Result<Buffer, ArrowError> {
-    let start_offset = buf.offset() as usize;
-    let buf_data = a_data.slice_with_length(start_offset, buf.length() as usize);
+    // the offset and length come from the (untrusted) message metadata
+    let out_of_bounds = || {
+        ArrowError::IpcError(format!(
+            "Buffer with offset {} and length {} is out of bounds of the message body of {} bytes",
+            buf.offset(),
+            buf.length(),
+            a_data.len()
+        ))
+    };
+    let start_offset = usize::try_from(buf.offset()).map_err(|_| out_of_bounds())?;
+    let length = usize::try_from(buf.length()).map_err(|_| out_of_bounds())?;
+    if start_offset
+        .checked_add(length)
+        .is_none_or(|end| end > a_data.len())
+    {
+        return Err(out_of_bounds());
+    }
+    let buf_data = a_data.slice_with_length(start_offset, length);
     // corner case: empty buffer
     match (buf_data.is_empty(), compression_codec) {
         (true, _) | (_, None) => Ok(buf_data),
